@@ -33,15 +33,15 @@ def run_models(chk, thorough):
     jobs = {}
     with ThreadPoolExecutor(max_workers=5) as ex:
         for f in LEMMAS:
-            jobs[f] = ex.submit(vlib.mc, MOD, "MC_ManifestWire_%s.cfg" % f, workers=4, timeout=900)
+            jobs[f] = ex.submit(vlib.mc, MOD, "MC_ManifestWire_%s%s.cfg" % (f, "_full" if thorough else ""), workers=4, timeout=1100)
         jobs["bounds"] = ex.submit(vlib.mc, MOD, "MC_ManifestWire_bounds.cfg", workers=4, timeout=900)
         jobs["dev"] = ex.submit(vlib.mc, MOD, "MC_ManifestWire_dev_shardwrap.cfg", expect_violation="C17_Bounds", workers=4, timeout=900)
         jobs["mut"] = ex.submit(vlib.dump_hists, MOD, "MC_ManifestWire_mut.cfg", var="x", workers=4, timeout=900)
         jobs["shapes"] = ex.submit(vlib.dump_hists, MOD, "MC_ManifestWire_shapes2.cfg", var="x", workers=4, timeout=900)
         res = dict((k, j.result()) for k, j in jobs.items())
     notes = {"shards": "0..2 shards x index/value patterns x threshold/total x 9 expiries (pre-epoch, sub-second, time_point min/max) x digest flag/content",
-             "meta": "0..2 metadata entries, keys/values = all strings <= 2 over {0x00,0xff}, keys strictly sorted",
-             "disc": "0..2 discovery hints, scheme/transport/endpoint all strings <= 2, priority {0,255}",
+             "meta": "0..2 metadata entries, keys/values = all strings <= 2 (one entry: over {0x00,0xff}; two entries: quick tier over one symbol), keys strictly sorted",
+             "disc": "0..2 discovery hints, scheme/transport/endpoint all strings <= 2 (one hint: over {0x00,0xff}; two hints: over one symbol), priority {0,255}",
              "fb": "0..2 fallback hints x advisory (strings <= 2) x token bits",
              "lens": "all four counted lists at sizes {0,1,2}^4 together x string lengths 0..2 x digest flag"}
     for f in LEMMAS:
@@ -200,6 +200,8 @@ def classes(e):
     if e["op"] == "dec":
         k = e["kind"].split("/")
         return ["dec", k[0], k[1] if len(k) > 1 and k[0] not in ("trunc", "max", "zero") else "", e["res"], bucket(e["x"]["n"] % 4)]
+    if e["op"] == "skipped":
+        return ["skipped"]
     return ["crash", e["phase"], e["why"]]
 
 
@@ -217,6 +219,8 @@ def drive(pid, lines, label, flavour):
     events = vlib.read_ndjson(trace)
     if len(events) != len(lines):
         raise vlib.MachineryError("driver produced %d events for %d operations (%s/%s)" % (len(events), len(lines), label, flavour))
+    if any(e["op"] == "skipped" for e in events) and sum(1 for e in events if e["op"] == "crash") < 40:
+        raise vlib.MachineryError("driver skipped operations without the crash limit being reached (%s/%s)" % (label, flavour))
     for e in events:
         if e["op"] == "crash" and e["phase"] == "driver":
             raise vlib.MachineryError("the driver itself died outside the code under test: %s" % json.dumps(e))
@@ -309,7 +313,7 @@ def run(chk):
     pairs = [s for s in shapes if s not in singles]
     pick = singles + (pairs if thorough else rng.sample(pairs, 160))
     rt_lines = [shape_line(s, i + 1) for i, s in enumerate(pick)]
-    rt_lines += [random_manifest_line(rng, i) for i in range(6000 if thorough else 300)]
+    rt_lines += [random_manifest_line(rng, i) for i in range(4000 if thorough else 300)]
     log("[gen] %d boundary shapes (%d single, %d pairs) + %d random manifests; %d TLC decoder inputs" % (
         len(pick), len(singles), len(pick) - len(singles), len(rt_lines) - len(pick), len(muts)))
     rt = drive(chk.pid, rt_lines, "roundtrip", "plain")
@@ -318,7 +322,7 @@ def run(chk):
         chk.sample({"source": "roundtrip", "events": [{"tag": e.get("tag"), "enc": e["enc"], "dec": e.get("dec")} for e in rt["events"][:6]]})
     else:
         real = [bytes(e["uri"]["b"]) for e in rt["events"] if e["op"] == "rt" and e.get("exact") and e["enc"] == "ok"]
-        dec_lines = mut_lines(muts, thorough) + random_dec_lines(rng, 20000 if thorough else 1000, real)
+        dec_lines = mut_lines(muts, thorough) + random_dec_lines(rng, 15000 if thorough else 1000, real)
         # the two input sets are independent: validate them side by side, each first on the plain build and then
         # (same inputs) on the ASan+UBSan build
         def chain(first, lines, label):
